@@ -24,10 +24,12 @@ FORBIDDEN = re.compile(
 
 
 @contextlib.contextmanager
-def build_lock():
+def build_lock(shared=False):
+    """Exclusive while building .vo files / runners; shared while reading them (case evaluation), so that a build
+    started by a concurrent check cannot swap a library under a running evaluation."""
     os.makedirs(WORK, exist_ok=True)
-    with open(os.path.join(WORK, "build.lock"), "w") as fh:
-        fcntl.flock(fh, fcntl.LOCK_EX)
+    with open(os.path.join(WORK, "build.lock"), "a") as fh:
+        fcntl.flock(fh, fcntl.LOCK_SH if shared else fcntl.LOCK_EX)
         try:
             yield
         finally:
@@ -199,7 +201,7 @@ def eval_cases_vm(run_mod, cases, workdir, shard=400, shard_bytes=200_000):
         shards.append((run_mod, len(shards), cur, workdir))
         bounds.append(start)
     mism, errors = [], []
-    with ThreadPoolExecutor(max_workers=JOBS) as ex:
+    with build_lock(shared=True), ThreadPoolExecutor(max_workers=JOBS) as ex:
         for idx, m, err in ex.map(_eval_shard, shards):
             if m is None:
                 errors.append((idx, err))
@@ -216,7 +218,8 @@ def eval_one_vm(run_mod, inp, workdir, tag="one"):
         fh.write(f"From Coq Require Import String.\nFrom EN Require Import Lib.Bytes Lib.Sx {run_mod}.\nOpen Scope string_scope.\nOpen Scope Z_scope.\n")
         fh.write(f"Eval vm_compute in (run ({sx.to_coq(inp)})).\n")
     cmd = ["timeout", "300", "coqc", "-Q", COQ, "EN", "-w", "-all", path]
-    r = subprocess.run(cmd, cwd=workdir, stdout=subprocess.PIPE, stderr=subprocess.STDOUT, text=True)
+    with build_lock(shared=True):
+        r = subprocess.run(cmd, cwd=workdir, stdout=subprocess.PIPE, stderr=subprocess.STDOUT, text=True)
     raw = r.stdout
     m = re.search(r"=\s*(.*?)\n\s*:\s*sx", raw, re.S)
     if not m:
